@@ -49,6 +49,44 @@ CHECKS["C12"] = dict(
          "Node budgets are small (2+2 quick, 3+3 thorough); holes shared between occurrences and larger terms are outside the claim.",
     ref="DESIGN.md 4 (C12)")
 
+CHECKS["C01"] = dict(
+    text="Bounded symbolic verification of progress: the real parser::check_definitions and type_checker::type_check run by path forking on closed "
+         "parser-shaped programs (<= 4/5 nodes with holes, plus families of definition groups with forward references, values and non-values in every "
+         "order, and groups nested in definitions); for every accepted program evaluator::step is iterated (40-60 steps) and z3 decides on each path that "
+         "evaluation ends in a value, keeps running, or stops at a division by zero. The executor names why a term is stuck; violations are replayed end to "
+         "end on the compiled code. Three listed known findings (value definitions used early, unresolved holes accepted, holes copied by open).",
+    note="Trusted: executor + library models (validated each run against the compiled type_check and check_definitions), z3. Tokenizer and packrat "
+         "stage are not part of this encoding (inputs are terms satisfying the parser-output invariants).",
+    ref="DESIGN.md 4 (C01)")
+CHECKS["C04"] = dict(
+    text="Bounded symbolic verification of type preservation for results: type_check -> evaluate -> the reference checker types the value; on each "
+         "path (closed programs <= 4/5 nodes with holes, plus groups of 2 definitions over leaves/sums/calls/lambdas) z3 decides that the value's type "
+         "is convertible with the reported type and that int/bool/function/type results have the matching value form.",
+    note="Trusted: executor + models (validated against the compiled code each run), reference checker, z3. Results with unresolved holes, "
+         "evaluation beyond fuel and larger programs are outside the claim.",
+    ref="DESIGN.md 4 (C04)")
+CHECKS["C05"] = dict(
+    text="Bounded symbolic verification of completeness on annotated programs: every closed hole-free program (<= 4/5 nodes; all groups of 2 and 3 leaf "
+         "definitions incl. forward type aliases) that the reference checker accepts is run through the real type_check, which must terminate within fuel, "
+         "accept, and report a convertible type whose normalisation terminates; and for every accepted program (holes allowed) the elaborated term equals the "
+         "source node for node. z3 decides each path; counterexamples replayed on the compiled checker. One defect found this way was repaired (fix: 32fe3ab).",
+    note="Trusted: executor + models, the reference checker as the definition of 'well typed' (explicit application of an implicit function is ill typed), z3.",
+    ref="DESIGN.md 4 (C05)")
+CHECKS["C06"] = dict(
+    text="Bounded symbolic verification of coherence between conversion and evaluation: by path forking over the real normalize_weak_head, unify, "
+         "syntactically_equal, evaluate/step and type_check: accepted closed programs (<= 4/6 nodes) of type int/bool normalise to the literal they evaluate to "
+         "and unify with their first three reducts; hole-free pairs (2+2 / 3+3 nodes, four contexts): unify is symmetric and agrees with equality of reference "
+         "normal forms; every hole-free term unifies with itself. z3 decides each path.",
+    note="Trusted: executor + models (validated against the compiled code), reference normaliser (lambda annotations ignored, division by zero stuck), z3.",
+    ref="DESIGN.md 4 (C06)")
+CHECKS["C18"] = dict(
+    text="Bounded symbolic verification of context handling: type_check under five context shapes mixing parameters and definitions (offsets 0 and n-i) on "
+         "terms <= 4/5 nodes with holes: after every call, accepted or rejected, both context vectors are identical to before (same entries); the verdict equals "
+         "that of the closed program obtained by binding the context around the term; normalize_weak_head of a context variable equals the reference for symbolic "
+         "index. z3 decides each path; counterexamples replayed on the compiled code with the same contexts.",
+    note="Trusted: executor + models (validated incl. under a non-empty context), z3. Contexts longer than 2 entries are outside the claim.",
+    ref="DESIGN.md 4 (C18)")
+
 NOT_APPLICABLE = {
     "C16": "printer round trip needs the packrat parser on 10-25 tokens; symbolic execution of the parser does not reach that (DESIGN.md section 6)",
     "C17": "asymptotic running time over n in the thousands is not observable by bounded symbolic execution (DESIGN.md section 6)",
@@ -81,7 +119,7 @@ def main():
         na.append({"property_id": pid, "reason": NOT_APPLICABLE.get(pid, "check not built yet at this commit (planned, see DESIGN.md section 4)")})
     m = {
         "version": 1,
-        "setup_cmd": "cd /verif/tools/rs2json && CARGO_NET_OFFLINE=true cargo build --release --offline && cd /verif/tools/gram-replay && CARGO_NET_OFFLINE=true cargo build --offline",
+        "setup_cmd": "cd /verif/tools/rs2json && CARGO_NET_OFFLINE=true cargo build --release --offline && cd /verif/tools/gram-replay && CARGO_NET_OFFLINE=true cargo build --offline && (gcc -O2 -shared -fPIC -o /verif/tools/mmapcache/mmapcache.so /verif/tools/mmapcache/mmapcache.c -ldl || true)",
         "hooks": {
             "guard": "gram_verif",
             "enable": "no source hooks are needed: the checks read /repo/src directly (AST export) and include! the same files in tools/gram-replay",
